@@ -13,13 +13,14 @@ class C17(Prop):
     id = "C17"
     driver = "Env"
     quick_n = 300
-    thorough_n = 8000
+    thorough_n = 25000
     rule = ("episodes with box spaces (various bounds, with and without the cash contract in the contract list, weights "
             "or numbers of contracts) and discrete spaces, delays 0..3; at a random step a malformed action is "
             "injected: wrong length, out of bounds by one ulp and by a lot, NaN entry, negative / too large / "
             "non-integer index, a vector for a discrete space, an index for a box space, arbitrary Python objects; "
             "in-space actions exactly on the bounds. Non-trivial = a malformed action was injected (and became due), "
             "or an in-space action on a bound, or a cash entry in the action; distinct = distinct cases")
+    rule = rule + es.CONTEXT_RULE
     nontrivial_tags = {"malformed-due", "on-bound", "cash-entry", "nr-contracts"}
     assumptions = [
         "arbitrary Python objects as actions are sampled by the harness but are all `junk` to the model's action type",
@@ -97,13 +98,13 @@ class C17(Prop):
                 return ["stepi", 0]
             return ["stepj", rng.choice(["str", "none", "nested", "2d", "bigarr"])]
         n = len(sp["allocs"])
-        kind = rng.choice(["neg", "big", "float", "vec", "junk"])
+        kind = rng.choice(["neg", "big", "float", "float", "vec", "junk"])
         if kind == "neg":
             return ["stepi", -1]
         if kind == "big":
             return ["stepi", n + rng.randint(0, 3)]
         if kind == "float":
-            return ["stepj", rng.choice(["float", "floatidx"])]
+            return ["stepj", rng.choice(["float", "floatidx", "npfloat", "npneg", "arr1", "arr2d", "arr0f", "f32", "npfloatint"])]
         if kind == "vec":
             return ["step", ["0"] * len(sp["keys"])]
         return ["stepj", rng.choice(["str", "none", "nested"])]
